@@ -118,7 +118,18 @@ func genC16(ctx *Ctx, i int) *Input {
 	in := &Input{Index: i, Sub: r.Uint64(), Variants: wl.AllVariants}
 	for k := 0; k < n; k++ {
 		if k%2 == 0 {
-			in.Specs = append(in.Specs, wideSpec(r.Sub("wide", k)))
+			ws := wideSpec(r.Sub("wide", k))
+			// a token named in a script that writes vowels as combining marks (the unchanged tree refuses such a name; a
+			// tree that accepts it must still write a file that compiles) - only here, where "accepted" is the premise
+			if mr := r.Sub("marks", k); mr.Chance(1, 8) {
+				for ti := range ws.Terms {
+					if ws.Terms[ti].Name != "" {
+						ws.Terms[ti].Name = []string{"संख्या", "व्यंजक", "ตัวเลข"}[mr.Intn(3)]
+						break
+					}
+				}
+			}
+			in.Specs = append(in.Specs, ws)
 		} else {
 			in.Specs = append(in.Specs, mixedSpec(ctx, r.Sub("mixed", k)))
 		}
